@@ -38,6 +38,7 @@ def run(F, res, tier):
     other_rules(F, res)
     store_updates_after_cancellation(F, res)
     cancellation_is_followed_by_recompute(F, res)
+    all_means_all(F, res)
     from rules import c12 as _c12
     hs = [f for p_, f in sorted(F.fns.items()) if p_.startswith("glas::handler::") and f.blocks and "{closure" not in p_]
     res.floor("request handlers in glas::handler", len(hs), 10)
@@ -470,6 +471,31 @@ def store_is_read_off_the_loop_only_under_a_snapshot(F, res, L, rule="W13"):
         res.ob(rule, "off-loop/%s" % FL.short(c), "this closure runs off the main loop: it holds a snapshot, or nothing it reaches locks the document store "
                "(a store read without a snapshot can see the text of a later edit)", pinned or not hits, where=f.loc(t["ln"]),
                how="captures a snapshot" if pinned else ("locks the store without a snapshot at %s" % hits if hits else "no snapshot, and no lock of the store is reachable"))
+
+
+def all_means_all(F, res, rule="W9"):
+    """W9 (second half): "recompute all" leaves nobody out. A change cancels the running diagnostics computation of *every* open
+    document, and a cancelled computation publishes nothing (W12) - on the promise that whoever cancelled it starts a new one. The
+    function that keeps the promise walks the open documents and starts a computation for each: it takes no decision of its own
+    and applies no filter (a document whose task "has finished" may have finished by being cancelled)."""
+    from rules import c06 as _c06
+    S = "glas::server::Server::"
+    p_ = S + "spawn_update_all_diagnostics"
+    f = F.fns.get(p_)
+    if f is None or not f.blocks:
+        res.anchor_missing(rule, p_)
+        return
+    unit = [f] + [F.fns[c] for c in F.closures_of(p_) if c in F.fns]
+    found = set()
+    for u in unit:
+        found |= _c06.decision_names(F, u)
+    odd = sorted(n_ for n_ in found if not (n_.startswith(_c06.SEARCH_PLUMBING) or n_ in _c06.SEARCH_PLUMBING))
+    d = FL.Defs(f)
+    spawns = [b for b, t in f.calls() if (callee(t) or "") == S + "spawn_update_diagnostics"] + \
+             [1 for u in unit[1:] for _b, t in u.calls() if (callee(t) or "") == S + "spawn_update_diagnostics"]
+    res.ob(rule, "recompute-all/every-open-document", "spawn_update_all_diagnostics starts a computation for every open document: no decision and no filter between "
+           "the list of open documents and the spawn", bool(spawns) and not odd, where=f.loc(),
+           how="spawn sites %d; decisions: %s" % (len(spawns), sorted(found)) if not odd else "decisions / filters that can leave a document out: %s" % odd)
 
 
 def stale_diagnostics_are_dropped(F, res, rule="W15"):
